@@ -1,15 +1,18 @@
 (* Proto.v -- src/proto/mod.rs (dispatch) and src/proto/tcb.rs (connection table). *)
 From MS Require Export Bytes Res Types Smack Http Ssh Ghost Stun Rpc Dns Smb.
+(* the protocol identifiers are the ones of src/proto/mod.rs, read from the source text on every run (gen/SrcConsts.v):
+   an internal renumbering is followed by the model, as it is by the dumped matcher tables *)
+From MSgen Require SrcConsts.
 
-Definition PROTO_NONE : N := 0.
-Definition PROTO_HTTP : N := 1.
-Definition PROTO_STUN : N := 2.
-Definition PROTO_SSH : N := 3.
-Definition PROTO_GHOST : N := 4.
-Definition PROTO_RPC_TCP : N := 5.
-Definition PROTO_RPC_UDP : N := 6.
-Definition PROTO_SMB1 : N := 7.
-Definition PROTO_SMB2 : N := 8.
+Definition PROTO_NONE : N := SrcConsts.proto_mod__PROTO_NONE.
+Definition PROTO_HTTP : N := SrcConsts.proto_mod__PROTO_HTTP.
+Definition PROTO_STUN : N := SrcConsts.proto_mod__PROTO_STUN.
+Definition PROTO_SSH : N := SrcConsts.proto_mod__PROTO_SSH.
+Definition PROTO_GHOST : N := SrcConsts.proto_mod__PROTO_GHOST.
+Definition PROTO_RPC_TCP : N := SrcConsts.proto_mod__PROTO_RPC_TCP.
+Definition PROTO_RPC_UDP : N := SrcConsts.proto_mod__PROTO_RPC_UDP.
+Definition PROTO_SMB1 : N := SrcConsts.proto_mod__PROTO_SMB1.
+Definition PROTO_SMB2 : N := SrcConsts.proto_mod__PROTO_SMB2.
 Definition NO_MATCH : N := 18446744073709551615.
 
 (* data that comes from the implementation (regenerated on every run) *)
